@@ -15,8 +15,12 @@ def U16.size : Nat := 65536
 
 /-- `u32::wrapping_add` -/
 def wadd32 (a b : Nat) : Nat := (a + b) % 4294967296
-/-- `u32::wrapping_sub` (operands in range) -/
-def wsub32 (a b : Nat) : Nat := (a + 4294967296 - b % 4294967296) % 4294967296
+/-- `u32::wrapping_sub`.  Written without the pattern `(x + 2^32) % 2^32`, whose
+    weak-head normalisation by the kernel peels the literal one successor at a
+    time; `Theorems/Lemmas/U32.lean` proves `wsub32 a b = (a % 2^32 + 2^32 - b % 2^32) % 2^32`. -/
+def wsub32 (a b : Nat) : Nat :=
+  if b % 4294967296 ≤ a % 4294967296 then a % 4294967296 - b % 4294967296
+  else 4294967296 - (b % 4294967296 - a % 4294967296)
 /-- `u32::saturating_add` -/
 def sadd32 (a b : Nat) : Nat := if a + b ≥ 4294967296 then 4294967295 else a + b
 /-- `u32::saturating_sub` -/
